@@ -285,6 +285,19 @@ rename("C09-benign-rename-mix-acc", PH, [("            let mut acc = F::ZERO;\n 
 rename("C19-benign-rename-shr-locals", GR, [("    let c = result.as_mut();\n    while n >= 64 {\n        for i in 0..3 {\n            c[i as usize] = c[(i + 1) as usize];\n        }\n        c[3] = 0;", "    let limbs = result.as_mut();\n    while n >= 64 {\n        for i in 0..3 {\n            limbs[i as usize] = limbs[(i + 1) as usize];\n        }\n        limbs[3] = 0;"), ("    let mut carrier: u64 = c[3] & mask;\n    c[3] >>= n;\n    for i in (0..3).rev() {\n        let new_carrier = c[i] & mask;\n        c[i] = (c[i] >> n) | (carrier << (64 - n));\n        carrier = new_carrier;", "    let mut low_bits: u64 = limbs[3] & mask;\n    limbs[3] >>= n;\n    for i in (0..3).rev() {\n        let next_low = limbs[i] & mask;\n        limbs[i] = (limbs[i] >> n) | (low_bits << (64 - n));\n        low_bits = next_low;")], "C19")
 rename("C20-benign-rename-evaluate-locals", GR, [("    let mut values = Vec::with_capacity(nodes.len());\n    for &node in nodes.iter() {\n        let value = match node {\n            Node::Constant(c) => u256_to_fr(&c),\n            Node::MontConstant(c) => c,\n            Node::Input(i) => u256_to_fr(&inputs[i]),\n            Node::Op(op, a, b) => op.eval_fr(values[a], values[b]),\n            Node::UnoOp(op, a) => op.eval_fr(values[a]),\n            Node::TresOp(op, a, b, c) => op.eval_fr(values[a], values[b], values[c]),\n        };\n        values.push(value);\n    }\n\n    // Convert from Montgomery form and return the outputs.\n    let mut out = vec![Fr::from(0); outputs.len()];\n    for i in 0..outputs.len() {\n        out[i] = values[outputs[i]];\n    }\n\n    out\n}", "    let mut computed = Vec::with_capacity(nodes.len());\n    for &node in nodes.iter() {\n        let value = match node {\n            Node::Constant(c) => u256_to_fr(&c),\n            Node::MontConstant(c) => c,\n            Node::Input(i) => u256_to_fr(&inputs[i]),\n            Node::Op(op, a, b) => op.eval_fr(computed[a], computed[b]),\n            Node::UnoOp(op, a) => op.eval_fr(computed[a]),\n            Node::TresOp(op, a, b, c) => op.eval_fr(computed[a], computed[b], computed[c]),\n        };\n        computed.push(value);\n    }\n\n    // Convert from Montgomery form and return the outputs.\n    let mut signals = vec![Fr::from(0); outputs.len()];\n    for i in 0..outputs.len() {\n        signals[i] = computed[outputs[i]];\n    }\n\n    signals\n}")], "C20")
 
+# renames of PRIVATE functions (every use updated): the rules are anchored on names; the fact base recognises the rename from the
+# frozen signature inventory and the checks must stay silent
+SLA = "utils/src/pm_tree/sled_adapter.rs"
+rename("C06-benign-rename-fn-update-nodes", FMT, [("update_nodes", "rehash_levels")], "C06")
+rename("C17-benign-rename-fn-update-nodes", FMT, [("update_nodes", "rehash_levels")], "C17")
+rename("C06-benign-rename-fn-update-hashes", OMT, [("update_hashes", "rehash_range"), ("hash_couple", "hash_pair")], "C06")
+rename("C08-benign-rename-fn-remove-indices", PMA, [("remove_indices_and_set_leaves", "rewrite_span_with_leaves"), ("fn remove_indices(", "fn reset_positions("), ("self.remove_indices(", "self.reset_positions(")], "C08")
+rename("C15-benign-rename-fn-remove-indices", PMA, [("remove_indices_and_set_leaves", "rewrite_span_with_leaves"), ("fn remove_indices(", "fn reset_positions("), ("self.remove_indices(", "self.reset_positions(")], "C15")
+rename("C01-benign-rename-fn-witness-element", PROTO, [("calculate_witness_element", "witness_to_field_elements")], "C01")
+rename("C18-benign-rename-fn-new-with-tries", SLA, [("new_with_tries", "open_retrying")], "C18")
+rename("C16-benign-rename-fn-new-with-tries", SLA, [("new_with_tries", "open_retrying")], "C16")
+rename("C19-benign-rename-fn-shr-and-cmp", GR, [("fn shr(", "fn shift_right("), ("shr(a, b)", "shift_right(a, b)"), ("u_lt(", "signed_lt("), ("u_gte(", "signed_ge(")], "C19")
+rename("C20-benign-rename-fn-shr-and-cmp", GR, [("fn shr(", "fn shift_right("), ("shr(a, b)", "shift_right(a, b)"), ("u_lt(", "signed_lt("), ("u_gte(", "signed_ge(")], "C20")
 m("C10-verify-len-guard-rejects-exact", PUB, "        if input_byte.len() < 128 + 5 * fr_byte_size() {\n            return Err(Report::msg(\"input data is too short\"));", "        if input_byte.len() <= 128 + 5 * fr_byte_size() {\n            return Err(Report::msg(\"input data is too short\"));", "C10")
 m("C10-vec-u8-guard-rejects-exact", UT, "    if len > input.len() - 8 {\n        return Err(Report::msg(\"vector length exceeds input data\"));", "    if len >= input.len() - 8 {\n        return Err(Report::msg(\"vector length exceeds input data\"));", "C10")
 
